@@ -589,8 +589,12 @@ func execC01(raw json.RawMessage, wantLog bool) (out Outcome) {
 				removes++
 			}
 		case "load", "loadsame":
+			if len(ir.model) == 0 && !(op.K == "loadsame" && op.Rd == 1) {
+				continue // empty-state round trip is C08's subject - except for what a search sees after
+				// the snapshot of an emptied index was loaded into an index that holds items
+			}
 			if len(ir.model) == 0 {
-				continue // empty-state round trip is C08's subject
+				out.Stat("empty_snapshot_loaded_into_used_index", 1)
 			}
 			target := newIndex(c.Cfg)
 			if op.K == "loadsame" {
@@ -638,6 +642,20 @@ func genC01(r *simrt.Rand, tier string) json.RawMessage {
 		nOps = r.Range(30, 120)
 	}
 	ops := genHistory(r, cfg, nOps, nIds, true, true, false)
+	if r.Bool(0.08) {
+		// a replica whose leader emptied the partition: the snapshot of an emptied (or never
+		// filled) index arrives at an index that holds items, and life goes on
+		var pre []IdxOp
+		n := r.Range(0, 3)
+		for i := 0; i < n; i++ {
+			pre = append(pre, IdxOp{K: "ins", Id: i, Vec: genVec(r, cfg.Dim, false, cfg.Space == 3), Lvl: r.Intn(2)})
+		}
+		for i := 0; i < n; i++ {
+			pre = append(pre, IdxOp{K: "rem", Id: i})
+		}
+		pre = append(pre, IdxOp{K: "loadsame", Hdr: r.Bool(0.5), Rd: 1})
+		ops = append(pre, genHistory(r, cfg, r.Range(2, 12), nIds, false, true, false)...)
+	}
 	// always finish with a few searches
 	for i := 0; i < 3; i++ {
 		ops = append(ops, genSearch(r, cfg, r.Bool(0.5)))
@@ -731,7 +749,7 @@ func init() {
 		},
 		Real:   []string{"index.Hnsw (Insert, Remove, GetVertex, Search, Save, Load)", "index/space", "utils.PriorityQueue", "math.Vector", "cluster leg: everything World III runs (services.Search/DataManager handlers, storage.Dataset fan-out and merge, partitions, raft, Badger log)"},
 		Stub:   []string{"index leg: none (update is driven as storage/partition.go drives it: lookup, remove, merge metadata, insert at old level)", "cluster leg: TCP/HTTP2, clock, process crash (as in every World III check)"},
-		Probes: []string{"entry_point_removed", "snapshot_loads", "snapshot_loads_into_used_index", "updates_applied", "final_state_has_links_to_tombstones", "searches",
+		Probes: []string{"entry_point_removed", "snapshot_loads", "snapshot_loads_into_used_index", "updates_applied", "final_state_has_links_to_tombstones", "searches", "empty_snapshot_loaded_into_used_index",
 			"cluster_leg_dataset_search_results_checked", "cluster_leg_dataset_searches_after_removal_or_update", "cluster_leg_node_restarts", "cluster_leg_follower_installed_snapshot"},
 		Budget: func(tier string) (int, time.Duration) {
 			if tier == "thorough" {
